@@ -1,4 +1,5 @@
 import GoSSE.Proofs.GenEquiv
+import GoSSE.Proofs.GenEquivFieldRoutes
 import GoSSE.Proofs.GenEquivFields
 import GoSSE.Proofs.MessageFields
 import GoSSE.Proofs.MessageBuild
@@ -185,5 +186,37 @@ theorem translated_NewID_set_is_single_line (fuel : Nat) (v : Bytes) (hf : v.len
   simp only [GenEquiv.toGenF] at hs ⊢
   unfold newID newMessageField at hs ⊢
   by_cases hsl : isSingleLine v <;> simp [hsl] at hs ⊢
+
+/-! ### The translated source text of the other routes (regenerated from /repo's message_fields.go on every run) -/
+
+/-- **`(*messageField).Scan` as translated** — the zeroing of the receiver, the nil test, the type switch over
+`[]byte` / `string` / anything else, `newMessageField` — returns for every dynamic type of the source and whatever
+the receiver held before exactly the model's receiver and error class (`MField.scan`, the function the theorems above
+are stated over); it does not panic. -/
+theorem translated_Scan_is_model (fuel : Nat) (prev : Gen.messageField) (prevM : MField) (src : ScanSrc)
+    (hf : GenEquiv.srcLen src < fuel) :
+    Gen.messageField_Scan fuel prev (GenEquiv.toAny src) =
+      .ok (GenEquiv.fErrStr (MField.scan prevM src).2, GenEquiv.toGenF (MField.scan prevM src).1) :=
+  GenEquiv.Scan_eq fuel prev prevM src hf
+
+/-- **`(*messageField).UnmarshalJSON` as translated**, for **every** decoder (`jsonDecode`: what
+`json.Unmarshal(data, &string)` yields — `encoding/json` is not modelled, any function stands for it): the model's
+receiver and error class (`MField.unmarshalJSON`). -/
+theorem translated_UnmarshalJSON_is_model (fuel : Nat) (prev : Gen.messageField) (prevM : MField) (data : Bytes)
+    (jsonDecode : Bytes → Option Bytes) (hf : ∀ v, jsonDecode data = some v → v.length < fuel) :
+    Gen.messageField_UnmarshalJSON fuel prev data jsonDecode =
+      .ok (GenEquiv.fErrStr (MField.unmarshalJSON prevM data (jsonDecode data)).2,
+           GenEquiv.toGenF (MField.unmarshalJSON prevM data (jsonDecode data)).1) :=
+  GenEquiv.UnmarshalJSON_eq fuel prev prevM data jsonDecode hf
+
+/-- `(*messageField).MarshalText` as translated: the value when set, an error when unset; the receiver is left alone -/
+theorem translated_MarshalText_field (fuel : Nat) (f : MField) :
+    Gen.messageField_MarshalText fuel (GenEquiv.toGenF f) =
+      .ok (if f.set then some f.value else none, if f.set then none else some "can't marshal unset string to text", GenEquiv.toGenF f) :=
+  GenEquiv.MarshalText_field_eq fuel f
+
+example : Gen.messageField_Scan 10 default (.str [97, 10, 98]) = .ok (some "input is multiline", { value := [], set := false }) ∧
+    Gen.messageField_Scan 10 default (.bytes [97]) = .ok (none, { value := [97], set := true }) := ⟨rfl, rfl⟩
+
 
 end GoSSE.Props.C14
